@@ -6,7 +6,7 @@ use crate::{
 };
 
 use async_trait::async_trait;
-use futures::channel::mpsc;
+use futures::channel::{mpsc, oneshot};
 use futures::{select, FutureExt, Sink, SinkExt, StreamExt};
 use parking_lot::Mutex;
 
@@ -67,6 +67,8 @@ pub(crate) fn next_conn() -> u64 {
 pub(crate) struct Peer {
     pub(crate) conn: u64,
     pub(crate) send_queue: futures::lock::Mutex<ZmqFramedWrite>,
+    /// Ends the task that watches the read half of a connection nothing is read from (PUSH)
+    _watcher_stop: Option<oneshot::Sender<()>>,
 }
 
 impl Peer {
@@ -74,12 +76,11 @@ impl Peer {
         Arc::new(Self {
             conn,
             send_queue: futures::lock::Mutex::new(send_queue),
+            _watcher_stop: None,
         })
     }
 }
 
-/// Forgetting one connection of a peer, as opposed to `peer_disconnected`, which forgets
-/// whatever is registered under the identity.
 /// The write half of one subscriber of a PUB or XPUB socket. Publishing never waits: what the
 /// transport does not take at once stays buffered. A task of its own - woken by the transport,
 /// ended when the subscriber is forgotten - writes the rest out, so that a subscriber that was
@@ -151,6 +152,8 @@ pub(crate) async fn register<'t, V>(
     }
 }
 
+/// Forgetting one connection of a peer, as opposed to `peer_disconnected`, which forgets
+/// whatever is registered under the identity.
 pub(crate) trait ForgetConn {
     fn forget_conn(&self, peer_id: &PeerIdentity, conn: u64);
 }
@@ -280,12 +283,43 @@ impl MultiPeerBackend for GenericSocketBackend {
     async fn peer_connected(self: Arc<Self>, peer_id: &PeerIdentity, io: FramedIo) {
         let (recv_queue, send_queue) = io.into_parts();
         let conn = next_conn();
-        let registered = register(&self.peers, peer_id, Peer::new(conn, send_queue)).await;
+        let (watcher_stop, watcher_stopped) = oneshot::channel();
+        let peer = Arc::new(Peer {
+            conn,
+            send_queue: futures::lock::Mutex::new(send_queue),
+            _watcher_stop: Some(watcher_stop).filter(|_| self.fair_queue_inner.is_none()),
+        });
+        let registered = register(&self.peers, peer_id, peer).await;
         #[cfg(feature = "verif-hooks")]
         crate::__verif::yield_point("reg.after_table").await;
         self.round_robin.join(peer_id);
         match &self.fair_queue_inner {
-            None => {}
+            None => {
+                // Nothing is ever read from this peer (PUSH), but the end of its connection must
+                // not go unnoticed until a write fails - a socket that is idle, or whose writes
+                // still fit into the transport's buffer, would keep every connection that ever
+                // closed. A task reads (and ignores) what comes and forgets the connection when
+                // it ends; it ends itself when the socket lets go of the connection.
+                let backend = Arc::downgrade(&self);
+                let peer_id = peer_id.clone();
+                let mut watcher_stopped = watcher_stopped.fuse();
+                let mut recv_queue = recv_queue;
+                crate::async_rt::task::spawn(async move {
+                    loop {
+                        select! {
+                            _ = watcher_stopped => return,
+                            unread = recv_queue.next().fuse() => match unread {
+                                Some(Ok(_)) => continue,
+                                _ => break,
+                            },
+                        }
+                    }
+                    drop(recv_queue);
+                    if let Some(backend) = backend.upgrade() {
+                        backend.forget_conn(&peer_id, conn);
+                    }
+                });
+            }
             Some(inner) => {
                 inner
                     .lock()
